@@ -324,10 +324,54 @@ def _dataclass_methods(pkg, fl, v):
     return v
 
 
+def _guard_builders(ctx, pkg, fn):
+    """A helper of the class that _assign_rates calls (directly or through another helper) and that writes guard text (a piece
+    containing `Tgas`) may hand back an EMPTY guard only because the bounds are absent: an early `return ""` chosen by another
+    attribute of the reaction (its type, a flag) drops the window of a reaction that declares one -- the coefficient is then
+    assigned at every temperature.  Conditions that look at the bounds (or at nothing of the reaction) are not judged here."""
+    seen, todo = set(), [fn]
+    while todo:
+        f_ = todo.pop()
+        for c in ast.walk(f_):
+            if isinstance(c, ast.Call) and isinstance(c.func, ast.Attribute) and isinstance(c.func.value, ast.Name) and c.func.value.id in ("self", "cls", "TemplateLoader"):
+                _, callee = pkg.resolve("TemplateLoader", c.func.attr)
+                if callee is not None and callee is not fn and c.func.attr not in seen and len(seen) < 12:
+                    seen.add(c.func.attr)
+                    todo.append(callee)
+    for name in sorted(seen):
+        callee = pkg.resolve("TemplateLoader", name)[1]
+        try:
+            hf = Flow(callee, FILE, resolver=lambda nm: pkg.resolve("TemplateLoader", nm)[1])
+        except Exception:
+            continue
+
+        def texts(x):
+            return [y[1] for y in walk(x) if isinstance(y, tuple) and len(y) == 2 and y[0] == "const" and isinstance(y[1], str)]
+        if not any("Tgas" in t for f in hf.facts if f.value is not None for t in texts(simp(f.value))):
+            continue
+        params = {("param", a.arg) for a in callee.args.args}
+        for f in hf.facts:
+            if f.kind != "return" or f.value is None or f.loops:
+                continue
+            v = simp(f.value)
+            if not (v[0] == "const" and isinstance(v[1], str) and "Tgas" not in v[1]):
+                continue
+            for g_, pol in f.guards:
+                g_ = simp(g_)
+                attrs = {y[2] for y in walk(g_) if isinstance(y, tuple) and len(y) == 3 and y[0] == "attr" and y[1] in params} \
+                    | {y[2][1][1] for y in walk(g_) if isinstance(y, tuple) and len(y) == 4 and y[0] == "call" and y[1] in (("global", "getattr"), ("global", "hasattr")) and len(y[2]) >= 2
+                       and y[2][0] in params and y[2][1][0] == "const" and isinstance(y[2][1][1], str)}
+                if attrs and not (attrs & {"temp_min", "temp_max"}):
+                    ctx.bad("R1", f"{name}:empty guard", (FILE, f.line),
+                            f"the guard builder {name} returns the guard {v[1]!r} when `{show(g_)[:80]}` is {pol}: a reaction that declares a temperature window is then assigned "
+                            "at every temperature (the window is dropped for a reason other than an absent bound)", expected="an empty guard only when both bounds are <= 0", found=show(g_)[:100])
+
+
 def _r1(ctx):
     pkg = package(ctx.tree)
     fn = pkg.method("TemplateLoader", "_assign_rates")
     ctx.saw(FILE, "TemplateLoader._assign_rates")
+    _guard_builders(ctx, pkg, fn)
     # small loop-free helpers of the class (self._x(..)) are read as the expressions they return
     fl = Flow(fn, FILE, resolver=lambda name: pkg.resolve("TemplateLoader", name)[1])
     W = (FILE, fn.lineno)
@@ -1678,4 +1722,12 @@ BENIGN += [
     {"name": "thermal-rates-by-methodcaller", "edits": [
         {"file": T, "old": "from tqdm import tqdm\n", "new": "from tqdm import tqdm\nfrom operator import methodcaller\n"},
         {"file": T, "old": "rateexprs = [reac.rateexpr() for reac in reactions]", "new": 'rateexprs = list(map(methodcaller("rateexpr"), reactions))'}]},
+]
+# ---- wave 3: a guard builder may return an empty guard only because the bounds are absent
+_GUARD_HELPER = ('    @staticmethod\n    def _guard(r):\n%s        parts = []\n        if r.temp_min > 0:\n            parts.append(f"Tgas>={r.temp_min}")\n'
+                 '        if r.temp_max > 0:\n            parts.append(f"Tgas<{r.temp_max}")\n        return " && ".join(parts)\n\n    def _assign_rates(\n')
+MUTANTS += [
+    {"name": "guard-builder-skips-flagged-reactions", "edits": [
+        {"file": T, "old": "    def _assign_rates(\n", "new": _GUARD_HELPER % '        if getattr(r, "constant_rate", False):\n            return ""\n'},
+        {"file": T, "old": "        " + _LT + "\n        " + _UT + "\n" + _TR, "new": "        tranges = [self._guard(r) for r in reactions]\n"}], "rules": ["R1"]},
 ]
